@@ -17,7 +17,7 @@
 (* intact pair is a miss.                                                   *)
 (*                                                                          *)
 (* The module is a chain  leaf <- mid <- main  (all reach reflect).         *)
-EXTENDS Naturals, Sequences, FiniteSets, TLC
+EXTENDS Naturals, Sequences, FiniteSets, TLC, Json
 
 CONSTANTS
   Cfgs,         \* set of configurations (records, see CfgFields)
@@ -172,6 +172,9 @@ NoStale == (last.built /\ last.fresh) => last.out = Cold(last.cfg, src)
 NoRework == last.built => ~last.rework
 (* C07: reflection facts handed to the obfuscator are the complete ones *)
 FactsComplete == (last.built /\ last.fresh) => last.out.main.facts = Deep("main", src)
+
+(* history output for behaviour replay (B2): printed when a history is complete *)
+EmitHist == (nb = MaxBuilds) => PrintT(<<"HIST", ToJson(hist)>>)
 
 (* ------------------------------------------------------------------ configuration alphabets *)
 Base == [tiny |-> FALSE, lit |-> FALSE, seed |-> "none", gogarble |-> "all", ctrl |-> FALSE, tags |-> FALSE,
